@@ -14,6 +14,7 @@ import (
 	"path/filepath"
 	"sort"
 	"strconv"
+	"time"
 
 	i_api "github.com/resonatehq/resonate/internal/api"
 	grpcApi "github.com/resonatehq/resonate/internal/app/subsystems/api/grpc"
@@ -386,9 +387,12 @@ type Fronts struct {
 	stop func()
 }
 
-func NewFronts() *Fronts {
+func NewFronts() *Fronts { return NewFrontsWith(time.Minute) }
+
+// NewFrontsWith: the HTTP front end with a given --api-http-task-frequency (default 1m)
+func NewFrontsWith(freq time.Duration) *Fronts {
 	st := &Stub{}
-	sub, err := httpApi.New(st, &httpApi.Config{Addr: "127.0.0.1:0"})
+	sub, err := httpApi.New(st, &httpApi.Config{Addr: "127.0.0.1:0", TaskFrequency: freq})
 	if err != nil {
 		panic(err)
 	}
